@@ -324,3 +324,103 @@ def catalogue(sx, B):
         sx.cover("vetoed")
     if lname == "pattern" and len(want_inter) < len(rule_next_bond("AB", ("1", "0.60", "600"))(R)[0]):
         sx.cover("vetoed")
+
+
+DANGLING = {
+    "bond 1 3": ("bonds", (0, 2), ["1", "0.37", "7000"]),
+    "bond 3 1 (next-residue atom first)": ("bonds", (2, 0), ["1", "0.37", "7000"]),
+    "bond 2 3": ("bonds", (1, 2), ["1", "0.38", "7100"]),
+    "angle 1 3 5": ("angles", (0, 2, 4), ["2", "130", "50"]),
+    "angle 5 3 1 (own atom last)": ("angles", (4, 2, 0), ["2", "130", "50"]),
+    "angle 2 1 3": ("angles", (1, 0, 2), ["2", "95", "30"]),
+}
+ITP_A = """[ moleculetype ]
+A 1
+[ atoms ]
+1 TA 1 A BB 1 0.0 1.0
+2 TS 1 A SC 1 0.0 1.0
+[ bonds ]
+1 2 1 0.30 100
+1 3 1 0.35 5000
+{bonds}
+[ angles ]
+{angles}
+"""
+B_FF = """[ moleculetype ]
+B 1
+[ atoms ]
+1 TB 1 B BB 1 0.0 1.0
+"""
+
+
+@condition("C02.dangling",
+           anchors=["polyply.src.polyply_parser:PolyplyParser._split_links_and_blocks", "polyply.src.polyply_parser:PolyplyParser._treat_link_atoms",
+                    "polyply.src.polyply_parser:PolyplyParser.treat_link_multiple", "polyply.src.apply_links:ApplyLinks.run_molecule"],
+           rejects=(), must_cover=["window fits", "chain end", "interrupted"],
+           stubs=["apply_links.tqdm -> plain iteration"],
+           outside=["dangling interactions spanning more than three residues", "monomers with more than 2 atoms"],
+           bounds={"quick": dict(nmax=3, kinds=["bond 3 1 (next-residue atom first)", "bond 2 3", "angle 1 3 5", "angle 5 3 1 (own atom last)", "angle 2 1 3"]),
+                   "thorough": dict(nmax=4, kinds=sorted(DANGLING))},
+           budget={"quick": 200, "thorough": 900})
+def dangling(sx, B):
+    """Real read_polyply on a two-atom monomer .itp with dangling interactions (atom index beyond the monomer, listed in either
+    direction) + MapToMolecule + ApplyLinks on chains in which a different residue may interrupt: a dangling interaction is present
+    for every window of consecutive, connected monomer residues that fits inside the chain, on exactly the corresponding atoms
+    with the same parameters, and absent at the chain end; the backbone bond `1 3` is always there so the chain stays connected."""
+    kind = sx.sel("dangling", B["kinds"])
+    n = int(sx.int("n", 2, B["nmax"]))
+    names = [sx.sel("res%d" % i, ["A", "B"]) for i in range(n)]
+    start = sx.int("start", 1, 10 ** 6)
+    t, idx, params = DANGLING[kind]
+    line = " ".join(str(i + 1) for i in idx) + " " + " ".join(params)
+    text = ITP_A.format(bonds=line if t == "bonds" else "", angles=line if t == "angles" else "")
+    ff = parse_ff([("itp", text), ("ff", B_FF)])
+    meta = residue_graph(n, [(i, i + 1) for i in range(n - 1)], names, [start + i for i in range(n)], ff=ff)
+    MapToMolecule(ff).run_molecule(meta)
+    with patched(al, tqdm=_Tqdm):
+        ApplyLinks().run_molecule(meta)
+    mol = meta.molecule
+    rank = {a: int(mol.nodes[a]["resid"] - start) for a in mol.nodes}
+    tag = lambda a: (rank[a], mol.nodes[a]["atomname"])
+    atomname = ["BB", "SC"]
+    span = max(idx) // 2
+    want = set()
+    for r in range(n):
+        window = list(range(r, r + span + 1))
+        if window[-1] >= n:
+            sx.cover("chain end")
+            continue
+        if any(names[x] != "A" for x in window):
+            sx.cover("interrupted")
+            continue
+        sx.cover("window fits")
+        want.add((t, tuple((r + i // 2, atomname[i % 2]) for i in idx), tuple(params)))
+    # the backbone bond 1 3
+    for r in range(n - 1):
+        if names[r] == "A" and names[r + 1] == "A":
+            want.add(("bonds", ((r, "BB"), (r + 1, "BB")), ("1", "0.35", "5000")))
+    got = set()
+    for tt, lst in mol.interactions.items():
+        for inter in lst:
+            if len(set(rank[a] for a in inter.atoms)) > 1:
+                got.add((tt, tuple(tag(a) for a in inter.atoms), tuple(inter.parameters)))
+    sx.claim(all(a in rank for a in mol.nodes) and len(mol.nodes) == sum(2 if x == "A" else 1 for x in names),
+             "no atom beyond those of the blocks appears", lambda: "%d atoms" % len(mol.nodes))
+    sx.claim(got == want, "dangling interactions behave as next-residue links: present for every window that fits, absent at the end",
+             lambda: "%s on %r: missing %r extra %r" % (kind, names, sorted(want - got), sorted(got - want)))
+    intra = sorted(rank[i.atoms[0]] for i in mol.interactions.get("bonds", []) if len(set(rank[a] for a in i.atoms)) == 1)
+    sx.claim(intra == [r for r in range(n) if names[r] == "A"], "the monomer's own bond is kept once per residue")
+
+
+@condition("C01.guarded_links",
+           anchors=["polyply.src.apply_links:ApplyLinks.apply_link_between_residues"],
+           rejects=(), must_cover=["replaced", "vetoed", "atom removed"],
+           stubs=["apply_links.tqdm -> plain iteration"],
+           bounds={"quick": dict(nmax=3, links=["replace", "end cap with non-edge", "remove atom at chain end"], names=["A", "B"], dup=False),
+                   "thorough": dict(nmax=4, links=["replace", "end cap with non-edge", "remove atom at chain end", "remove atom at chain start", "pattern"],
+                                    names=["A", "B"], dup=True)},
+           budget={"quick": 200, "thorough": 900})
+def guarded_links(sx, B):
+    """C01's last clause on the C02 machinery: only atoms explicitly targeted by an *applicable* link differ from the block copy -
+    a link that is vetoed by its non-edge / pattern guard changes no attribute and removes no atom."""
+    catalogue(sx, B)
